@@ -7,6 +7,7 @@ from hypothesis import strategies as st
 from lib import hyp
 from lib.hyp import Violation
 from lib.worker import EXT
+from lib import worker as wk
 
 PROP = 'C10'
 RULE = ('Hypothesis-generated documents with 1..8 headings of every style (ATX with/without closing #, Setext 1 and 2, manual [label], duplicate '
@@ -58,6 +59,8 @@ def strategy(tier):
         'mode': st.sampled_from(['default', 'default', 'random_foot', 'random_labels', 'no_labels', 'base_header_level']),
         'smart': st.booleans(),
         'unused_note': st.booleans(),
+        # route: the plain conversion, or one parse exported by other writers first and then by the HTML writer (the tree is shared)
+        'route': st.sampled_from([None, None, None, ['itmz'], ['opml', 'latex'], ['fodt', 'itmz']]),
     })
 
 
@@ -214,10 +217,23 @@ def check(case, ctx):
     ext |= {'random_foot': EXT['RANDOM_FOOT'], 'random_labels': EXT['RANDOM_LABELS'], 'no_labels': EXT['NO_LABELS']}.get(mode, 0)
     if mode in ('random_foot', 'random_labels'):
         ctx.w.call('srand', 12345)      # the random anchors come from libc rand(): pin its state so a case is reproducible
-    r = ctx.w.convert(src, 'html', ext | EXT['SNIPPET'])
-    if r.status != 'ok':
-        raise Violation('convert:' + r.status, src)
-    out = r.text
+    if case.get('route') and mode not in ('random_foot', 'random_labels'):
+        w = ctx.w
+        w.call('pool', 'init')
+        eid = w.call('enew', ext | EXT['SNIPPET'], src)[1]
+        try:
+            for pre in case['route']:
+                w.call('eexport', eid, wk.FMT[pre])
+            out = w.call('eexport', eid, wk.FMT['html'])[1].decode('utf-8', 'replace') + '\n'
+        finally:
+            w.call('efree', eid)
+            w.call('pool', 'drain')
+        ctx.cls('route_one_parse_several_writers')
+    else:
+        r = ctx.w.convert(src, 'html', ext | EXT['SNIPPET'])
+        if r.status != 'ok':
+            raise Violation('convert:' + r.status, src)
+        out = r.text
     ctx.cls('mode_' + mode)
     try:
         root = ET.fromstring('<root>' + out.replace('&nbsp;', '&#160;') + '</root>')
